@@ -5,12 +5,12 @@ import random
 LEVEL = 'exploration'
 RULE = ('all 2^7 subsets of {--gc (1-3 values), -G flag(s), --coverage, '
         '--profile cProfile, --buffer, warnings= argument, -D with scripted '
-        'stdin} x 14 endings {a raising feature tear-down (stray empty '
+        'stdin} x 16 endings {a class run as a unit whose class fixture raises or skips as the last / first thing of the layer, a raising feature tear-down (stray empty '
         'profile file), normal, failing tests, exception from a layer '
         'testSetUp hook, exception from a layer testTearDown hook (also '
         'around a test skipped in body/setUp, interrupted, or with several '
         'result events), KeyboardInterrupt in a test body / setUp / '
-        'tearDown, -x} = 1792 '
+        'tearDown, -x} = 2048 '
         'cases, exhaustive in both tiers (thorough repeats them with 3 more '
         'parameter seeds). A snapshot of gc thresholds/debug flags, '
         'traceback.format_exception/print_exception, sys.gettrace, '
@@ -40,7 +40,11 @@ ENDINGS = ['normal', 'failing', 'testSetUp_raises', 'testTearDown_raises',
            # a feature's own tear-down raises after the test phase: a stray
            # empty profile file makes Profiling.global_teardown() fail
            # (EOFError) - everything else must still be put back
-           'stray_prof']
+           'stray_prof',
+           # the last (first) thing that happens in the layer is a class or
+           # module level fixture error / skip of a class that is run as a
+           # unit: a result event outside startTest / stopTest
+           'unit_last', 'unit_first']
 
 
 def EXHAUSTIVE(tier):
@@ -211,6 +215,15 @@ def run_case(case):
         argv += ['-D']
         stdin = ScriptedStdin()
     spec = gen.simple_world(prefix, layers, {'Base': [t0, t1, t2]})
+    if ending.startswith('unit_'):
+        node = {'t': 'unit', 'name': 'UnitU0', 'layer': 'Base',
+                'tests': [{'name': 'test_u0', 'kind': 'pass'}],
+                'fixture': dict(rng.choice(gen.UNIT_FIXTURES[:4]))}
+        ch = spec['modules'][0]['suite']['ch']
+        ch.insert(len(ch) if ending == 'unit_last' else 0, node)
+        if ending == 'unit_last' and rng.random() < 0.5:
+            # ... and nothing else runs in that layer
+            opts['test'] = ['test_u0', 'Class', 'UnitU0']
     # per-test hook that raises on its 2nd call is expressed through a plan
     # variant: the hook raises always, but only for endings that want it
     if ending.endswith('testSetUp_raises'):
